@@ -1,8 +1,63 @@
 import XmppModel.Prelude.Hex
-/-! Driver module for C15: `handle args` answers one protocol line (fields after the
-property id); `none` means the line is not understood (`!bad-op`). -/
-namespace XmppModel.Driver.C15
+import XmppModel.Model.Ibb
+/-! Driver module for C15.
 
-def handle (_args : List String) : Option String := none
+    C15 recv <maxbuf> <ops>    ops `,`-joined:  d:<known>:<seq>:<payloadhex>  data packet
+                                                c   the stream is closed (by either side)
+                                                r:<n>   Read with a buffer of n bytes
+       answer: one observation per op, `,`-joined: ack|inf|unx|bad|res  /  c  /  D<hex>|EOF|BLOCK
+    C15 emit <closed> <writtenhex> <packets>    packets `,`-joined: <seq>:<known>:<payloadhex>
+       answer: ok | bad      (the relation `emits` for the standard codec)
+-/
+namespace XmppModel.Driver.C15
+open XmppModel XmppModel.Ibb
+
+def showReply : Reply → String
+  | .ack => "ack" | .itemNotFound => "inf" | .unexpectedRequest => "unx"
+  | .badRequest => "bad" | .resourceConstraint => "res"
+
+def applyOp (s : RState) (op : String) : Option (RState × String) :=
+  match op.splitOn ":" with
+  | ["d", k, seq, pl] => do
+    let k ← parseBool k; let n ← seq.toNat?; let b ← hexDecode pl
+    let r := recv std s ⟨k, n, b⟩
+    pure (r.1, showReply r.2)
+  | ["c"] => some (close s, "c")
+  | ["r", n] => do
+    let n ← n.toNat?
+    match readOut s n with
+    | .data b => pure ((Ibb.read s n).1, "D" ++ hexEncode b)
+    | .eof => pure (s, "EOF")
+    | .blocks => pure (s, "BLOCK")
+  | _ => none
+
+def runOps : RState → List String → Option (List String)
+  | _, [] => some []
+  | s, o :: os => do
+    let r ← applyOp s o
+    let rest ← runOps r.1 os
+    pure (r.2 :: rest)
+
+def parsePacket (f : String) : Option Packet :=
+  match f.splitOn ":" with
+  | [seq, k, pl] => do
+    let n ← seq.toNat?; let k ← parseBool k; let b ← hexDecode pl
+    pure ⟨k, n, b⟩
+  | _ => none
+
+def handle (args : List String) : Option String :=
+  match args with
+  | ["recv", maxbuf, ops] => do
+    let m ← maxbuf.toNat?
+    let r ← runOps ⟨true, 0, [], m⟩ (splitList ops)
+    pure (joinList r)
+  | ["open", acc] => do
+    let a ← parseBool acc
+    pure (if (openResult a).isSome then "conn" else "err")
+  | ["emit", closed, written, packets] => do
+    let c ← parseBool closed; let w ← hexDecode written
+    let ps ← mapM? parsePacket (splitList packets)
+    pure (if emits std w c ps then "ok" else "bad")
+  | _ => none
 
 end XmppModel.Driver.C15
